@@ -20,7 +20,7 @@ func reverseLookup(c *Ctx, r *Report, rule string) *ssa.Function {
 
 func r10_4(c *Ctx, r *Report) {
 	const rule = "R10.4"
-	r.rule(rule, "Defaults. ListSolarFromBaZi delegates to …BySect(…, 2), which delegates to …BySectAndBaseYear(…, 1900), arguments passed through unchanged.")
+	r.rule(rule, "Defaults. ListSolarFromBaZi(p…) does what …BySect(p…, 2) does, and …BySect(p…, sect) what …BySectAndBaseYear(p…, sect, 1900) does: each pair of entries, resolved through pure delegations to the function that does the work (arguments handed on evaluated over the entry's own parameters, the school over a spread of values), reaches the same worker with the same arguments.")
 	for _, t := range []struct {
 		from, to string
 		k        int64
@@ -29,18 +29,7 @@ func r10_4(c *Ctx, r *Report) {
 		if fn == nil {
 			continue
 		}
-		d := pureDelegation(fn)
-		okk := d != nil && fname(d.callee) == t.to
-		if okk {
-			args := d.call.Common().Args
-			k, isK := constInt(args[len(args)-1])
-			okk = isK && k == t.k
-			for i, a := range args[:len(args)-1] {
-				if a != ssa.Value(fn.Params[i]) {
-					okk = false
-				}
-			}
-		}
-		r.check(okk, rule, fmt.Sprintf("%s -> %s(…, %d)", t.from, t.to, t.k), c.fnPos(fn), "pure delegation with the documented default")
+		okk, detail := delegatesWithDefault(c, fn, c.FuncBy[t.to], t.k)
+		r.check(okk, rule, fmt.Sprintf("%s -> %s(…, %d)", t.from, t.to, t.k), c.fnPos(fn), "does what the longer entry does with the documented default: "+detail)
 	}
 }
